@@ -57,7 +57,8 @@ def evaluate(case, L0, fmin):
     n = case['n']
     p, s = O.build(case)
     sol, out = run_until_accuracy(s, case)
-    if sol is None or 'Exception was thrown' in out or not (sol.solutionAccuracy < case['eps']):
+    # "Solve stopped because the requested accuracy was reached": it returned without an exception and with budget left
+    if sol is None or 'Exception was thrown' in out or sol.numberOfGlobalTrials >= case['iters']:
         return 'skip', 'did not stop by accuracy'
     # evaluations of a local phase (refine-early mode) are not trials of the global search: keep those that are in the record
     in_record = {tuple(float(v) for v in it.GetY().floatVariables) for it in H.items(s) if it.GetIndex() == 0}
@@ -87,7 +88,7 @@ def adversarial_1d(case, lip0):
     (r*M/2, M taken when the last interval was selected) the best value must stay within (r*M/2)*eps of every such dip."""
     p, s = O.build(case)
     sol, out = run_until_accuracy(s, case)
-    if sol is None or 'Exception was thrown' in out or not (sol.solutionAccuracy < case['eps']):
+    if sol is None or 'Exception was thrown' in out or sol.numberOfGlobalTrials >= case['iters']:
         return 'skip', {}
     in_record = {tuple(float(v) for v in it.GetY().floatVariables) for it in H.items(s) if it.GetIndex() == 0}
     p.log = [e for e in p.log if tuple(float(v) for v in e[0]) in in_record]
